@@ -136,7 +136,12 @@ def _direct(R, rng, defn, b, cse, ctx):
         pt[defn["dt"]] = dt
         R.stats.inc("dt_zero_tiny_or_negative_cases" if pi in (1, 2, 3) else "dt_ordinary_cases")
         try:
-            if defn["control"] or pi % 2:
+            if pi % 3 == 2:
+                # every argument by keyword, in another order
+                r1 = ekf.process_model(control=ct, covariance=cov, state=st, dt=dt)
+                r2 = ekf.process_model(dt, st, covariance=cov, control=ct)
+                R.stats.inc("keyword_argument_calls")
+            elif defn["control"] or pi % 2:
                 r1 = ekf.process_model(dt, st, cov, ct)
                 r2 = ekf.process_model(dt, st, cov, ct)
             else:
